@@ -15,7 +15,7 @@
    Definitions only; proofs in Proofs.v. *)
 From Coq Require Import List ZArith Bool.
 Import ListNotations.
-From V Require Import Base.U32 Base.Bytes Base.Iface Gen.ProtoConsts Gen.C04Consts.
+From V Require Import Base.U32 Base.Bytes Base.Iface Gen.ProtoConsts Gen.C04Consts C04.Keepalive.
 From V Require C01.Model.
 Local Open Scope Z_scope.
 
@@ -91,54 +91,62 @@ Record st := mkst {
   clrconn : bool;
   evi : Z;
   srvdelay : Z;
-  srvq : list Z
+  srvq : list Z;
+  nresp : Z;       (* ghost: number of calls received (handler invocations) *)
+  kabs : kst;      (* ghost: state of the abstract keep-alive semantics, run in lockstep (C05) *)
+  kenv : bool;     (* ghost: the environment hypotheses kenv_ok held for every abstract event of the current episode *)
+  ktmo : Z         (* ghost: timeout of the current episode *)
 }.
 
-Definition set_now (v : Z) (s : st) : st := mkst v (boot s) (cycles0 s) (lat s) (lati s) (fired s) (seqc s) (t_wifi s) (t_timer1 s) (t_iter s) (t_wd s) (t_recon s) (t_stop s) (t_value s) (t_gpio2 s) (t_srv s) (wstatus s) (wlast s) (link s) (liveres s) (deadres s) (script s) (started s) (registered s) (srpc s) (espbuf s) (recvbuf s) (lastresp s) (lastsent s) (nextwd s) (actto s) (resolving s) (gstate s) (conn s) (wbuf s) (stalled s) (outs s) (halted s) (stuck s) (regpay s) (clrstop s) (clrconn s) (evi s) (srvdelay s) (srvq s).
-Definition set_boot (v : Z) (s : st) : st := mkst (now s) v (cycles0 s) (lat s) (lati s) (fired s) (seqc s) (t_wifi s) (t_timer1 s) (t_iter s) (t_wd s) (t_recon s) (t_stop s) (t_value s) (t_gpio2 s) (t_srv s) (wstatus s) (wlast s) (link s) (liveres s) (deadres s) (script s) (started s) (registered s) (srpc s) (espbuf s) (recvbuf s) (lastresp s) (lastsent s) (nextwd s) (actto s) (resolving s) (gstate s) (conn s) (wbuf s) (stalled s) (outs s) (halted s) (stuck s) (regpay s) (clrstop s) (clrconn s) (evi s) (srvdelay s) (srvq s).
-Definition set_cycles0 (v : Z) (s : st) : st := mkst (now s) (boot s) v (lat s) (lati s) (fired s) (seqc s) (t_wifi s) (t_timer1 s) (t_iter s) (t_wd s) (t_recon s) (t_stop s) (t_value s) (t_gpio2 s) (t_srv s) (wstatus s) (wlast s) (link s) (liveres s) (deadres s) (script s) (started s) (registered s) (srpc s) (espbuf s) (recvbuf s) (lastresp s) (lastsent s) (nextwd s) (actto s) (resolving s) (gstate s) (conn s) (wbuf s) (stalled s) (outs s) (halted s) (stuck s) (regpay s) (clrstop s) (clrconn s) (evi s) (srvdelay s) (srvq s).
-Definition set_lat (v : list Z) (s : st) : st := mkst (now s) (boot s) (cycles0 s) v (lati s) (fired s) (seqc s) (t_wifi s) (t_timer1 s) (t_iter s) (t_wd s) (t_recon s) (t_stop s) (t_value s) (t_gpio2 s) (t_srv s) (wstatus s) (wlast s) (link s) (liveres s) (deadres s) (script s) (started s) (registered s) (srpc s) (espbuf s) (recvbuf s) (lastresp s) (lastsent s) (nextwd s) (actto s) (resolving s) (gstate s) (conn s) (wbuf s) (stalled s) (outs s) (halted s) (stuck s) (regpay s) (clrstop s) (clrconn s) (evi s) (srvdelay s) (srvq s).
-Definition set_lati (v : Z) (s : st) : st := mkst (now s) (boot s) (cycles0 s) (lat s) v (fired s) (seqc s) (t_wifi s) (t_timer1 s) (t_iter s) (t_wd s) (t_recon s) (t_stop s) (t_value s) (t_gpio2 s) (t_srv s) (wstatus s) (wlast s) (link s) (liveres s) (deadres s) (script s) (started s) (registered s) (srpc s) (espbuf s) (recvbuf s) (lastresp s) (lastsent s) (nextwd s) (actto s) (resolving s) (gstate s) (conn s) (wbuf s) (stalled s) (outs s) (halted s) (stuck s) (regpay s) (clrstop s) (clrconn s) (evi s) (srvdelay s) (srvq s).
-Definition set_fired (v : Z) (s : st) : st := mkst (now s) (boot s) (cycles0 s) (lat s) (lati s) v (seqc s) (t_wifi s) (t_timer1 s) (t_iter s) (t_wd s) (t_recon s) (t_stop s) (t_value s) (t_gpio2 s) (t_srv s) (wstatus s) (wlast s) (link s) (liveres s) (deadres s) (script s) (started s) (registered s) (srpc s) (espbuf s) (recvbuf s) (lastresp s) (lastsent s) (nextwd s) (actto s) (resolving s) (gstate s) (conn s) (wbuf s) (stalled s) (outs s) (halted s) (stuck s) (regpay s) (clrstop s) (clrconn s) (evi s) (srvdelay s) (srvq s).
-Definition set_seqc (v : Z) (s : st) : st := mkst (now s) (boot s) (cycles0 s) (lat s) (lati s) (fired s) v (t_wifi s) (t_timer1 s) (t_iter s) (t_wd s) (t_recon s) (t_stop s) (t_value s) (t_gpio2 s) (t_srv s) (wstatus s) (wlast s) (link s) (liveres s) (deadres s) (script s) (started s) (registered s) (srpc s) (espbuf s) (recvbuf s) (lastresp s) (lastsent s) (nextwd s) (actto s) (resolving s) (gstate s) (conn s) (wbuf s) (stalled s) (outs s) (halted s) (stuck s) (regpay s) (clrstop s) (clrconn s) (evi s) (srvdelay s) (srvq s).
-Definition set_t_wifi (v : timer) (s : st) : st := mkst (now s) (boot s) (cycles0 s) (lat s) (lati s) (fired s) (seqc s) v (t_timer1 s) (t_iter s) (t_wd s) (t_recon s) (t_stop s) (t_value s) (t_gpio2 s) (t_srv s) (wstatus s) (wlast s) (link s) (liveres s) (deadres s) (script s) (started s) (registered s) (srpc s) (espbuf s) (recvbuf s) (lastresp s) (lastsent s) (nextwd s) (actto s) (resolving s) (gstate s) (conn s) (wbuf s) (stalled s) (outs s) (halted s) (stuck s) (regpay s) (clrstop s) (clrconn s) (evi s) (srvdelay s) (srvq s).
-Definition set_t_timer1 (v : timer) (s : st) : st := mkst (now s) (boot s) (cycles0 s) (lat s) (lati s) (fired s) (seqc s) (t_wifi s) v (t_iter s) (t_wd s) (t_recon s) (t_stop s) (t_value s) (t_gpio2 s) (t_srv s) (wstatus s) (wlast s) (link s) (liveres s) (deadres s) (script s) (started s) (registered s) (srpc s) (espbuf s) (recvbuf s) (lastresp s) (lastsent s) (nextwd s) (actto s) (resolving s) (gstate s) (conn s) (wbuf s) (stalled s) (outs s) (halted s) (stuck s) (regpay s) (clrstop s) (clrconn s) (evi s) (srvdelay s) (srvq s).
-Definition set_t_iter (v : timer) (s : st) : st := mkst (now s) (boot s) (cycles0 s) (lat s) (lati s) (fired s) (seqc s) (t_wifi s) (t_timer1 s) v (t_wd s) (t_recon s) (t_stop s) (t_value s) (t_gpio2 s) (t_srv s) (wstatus s) (wlast s) (link s) (liveres s) (deadres s) (script s) (started s) (registered s) (srpc s) (espbuf s) (recvbuf s) (lastresp s) (lastsent s) (nextwd s) (actto s) (resolving s) (gstate s) (conn s) (wbuf s) (stalled s) (outs s) (halted s) (stuck s) (regpay s) (clrstop s) (clrconn s) (evi s) (srvdelay s) (srvq s).
-Definition set_t_wd (v : timer) (s : st) : st := mkst (now s) (boot s) (cycles0 s) (lat s) (lati s) (fired s) (seqc s) (t_wifi s) (t_timer1 s) (t_iter s) v (t_recon s) (t_stop s) (t_value s) (t_gpio2 s) (t_srv s) (wstatus s) (wlast s) (link s) (liveres s) (deadres s) (script s) (started s) (registered s) (srpc s) (espbuf s) (recvbuf s) (lastresp s) (lastsent s) (nextwd s) (actto s) (resolving s) (gstate s) (conn s) (wbuf s) (stalled s) (outs s) (halted s) (stuck s) (regpay s) (clrstop s) (clrconn s) (evi s) (srvdelay s) (srvq s).
-Definition set_t_recon (v : timer) (s : st) : st := mkst (now s) (boot s) (cycles0 s) (lat s) (lati s) (fired s) (seqc s) (t_wifi s) (t_timer1 s) (t_iter s) (t_wd s) v (t_stop s) (t_value s) (t_gpio2 s) (t_srv s) (wstatus s) (wlast s) (link s) (liveres s) (deadres s) (script s) (started s) (registered s) (srpc s) (espbuf s) (recvbuf s) (lastresp s) (lastsent s) (nextwd s) (actto s) (resolving s) (gstate s) (conn s) (wbuf s) (stalled s) (outs s) (halted s) (stuck s) (regpay s) (clrstop s) (clrconn s) (evi s) (srvdelay s) (srvq s).
-Definition set_t_stop (v : timer) (s : st) : st := mkst (now s) (boot s) (cycles0 s) (lat s) (lati s) (fired s) (seqc s) (t_wifi s) (t_timer1 s) (t_iter s) (t_wd s) (t_recon s) v (t_value s) (t_gpio2 s) (t_srv s) (wstatus s) (wlast s) (link s) (liveres s) (deadres s) (script s) (started s) (registered s) (srpc s) (espbuf s) (recvbuf s) (lastresp s) (lastsent s) (nextwd s) (actto s) (resolving s) (gstate s) (conn s) (wbuf s) (stalled s) (outs s) (halted s) (stuck s) (regpay s) (clrstop s) (clrconn s) (evi s) (srvdelay s) (srvq s).
-Definition set_t_value (v : timer) (s : st) : st := mkst (now s) (boot s) (cycles0 s) (lat s) (lati s) (fired s) (seqc s) (t_wifi s) (t_timer1 s) (t_iter s) (t_wd s) (t_recon s) (t_stop s) v (t_gpio2 s) (t_srv s) (wstatus s) (wlast s) (link s) (liveres s) (deadres s) (script s) (started s) (registered s) (srpc s) (espbuf s) (recvbuf s) (lastresp s) (lastsent s) (nextwd s) (actto s) (resolving s) (gstate s) (conn s) (wbuf s) (stalled s) (outs s) (halted s) (stuck s) (regpay s) (clrstop s) (clrconn s) (evi s) (srvdelay s) (srvq s).
-Definition set_t_gpio2 (v : timer) (s : st) : st := mkst (now s) (boot s) (cycles0 s) (lat s) (lati s) (fired s) (seqc s) (t_wifi s) (t_timer1 s) (t_iter s) (t_wd s) (t_recon s) (t_stop s) (t_value s) v (t_srv s) (wstatus s) (wlast s) (link s) (liveres s) (deadres s) (script s) (started s) (registered s) (srpc s) (espbuf s) (recvbuf s) (lastresp s) (lastsent s) (nextwd s) (actto s) (resolving s) (gstate s) (conn s) (wbuf s) (stalled s) (outs s) (halted s) (stuck s) (regpay s) (clrstop s) (clrconn s) (evi s) (srvdelay s) (srvq s).
-Definition set_t_srv (v : timer) (s : st) : st := mkst (now s) (boot s) (cycles0 s) (lat s) (lati s) (fired s) (seqc s) (t_wifi s) (t_timer1 s) (t_iter s) (t_wd s) (t_recon s) (t_stop s) (t_value s) (t_gpio2 s) v (wstatus s) (wlast s) (link s) (liveres s) (deadres s) (script s) (started s) (registered s) (srpc s) (espbuf s) (recvbuf s) (lastresp s) (lastsent s) (nextwd s) (actto s) (resolving s) (gstate s) (conn s) (wbuf s) (stalled s) (outs s) (halted s) (stuck s) (regpay s) (clrstop s) (clrconn s) (evi s) (srvdelay s) (srvq s).
-Definition set_wstatus (v : Z) (s : st) : st := mkst (now s) (boot s) (cycles0 s) (lat s) (lati s) (fired s) (seqc s) (t_wifi s) (t_timer1 s) (t_iter s) (t_wd s) (t_recon s) (t_stop s) (t_value s) (t_gpio2 s) (t_srv s) v (wlast s) (link s) (liveres s) (deadres s) (script s) (started s) (registered s) (srpc s) (espbuf s) (recvbuf s) (lastresp s) (lastsent s) (nextwd s) (actto s) (resolving s) (gstate s) (conn s) (wbuf s) (stalled s) (outs s) (halted s) (stuck s) (regpay s) (clrstop s) (clrconn s) (evi s) (srvdelay s) (srvq s).
-Definition set_wlast (v : Z) (s : st) : st := mkst (now s) (boot s) (cycles0 s) (lat s) (lati s) (fired s) (seqc s) (t_wifi s) (t_timer1 s) (t_iter s) (t_wd s) (t_recon s) (t_stop s) (t_value s) (t_gpio2 s) (t_srv s) (wstatus s) v (link s) (liveres s) (deadres s) (script s) (started s) (registered s) (srpc s) (espbuf s) (recvbuf s) (lastresp s) (lastsent s) (nextwd s) (actto s) (resolving s) (gstate s) (conn s) (wbuf s) (stalled s) (outs s) (halted s) (stuck s) (regpay s) (clrstop s) (clrconn s) (evi s) (srvdelay s) (srvq s).
-Definition set_link (v : Z) (s : st) : st := mkst (now s) (boot s) (cycles0 s) (lat s) (lati s) (fired s) (seqc s) (t_wifi s) (t_timer1 s) (t_iter s) (t_wd s) (t_recon s) (t_stop s) (t_value s) (t_gpio2 s) (t_srv s) (wstatus s) (wlast s) v (liveres s) (deadres s) (script s) (started s) (registered s) (srpc s) (espbuf s) (recvbuf s) (lastresp s) (lastsent s) (nextwd s) (actto s) (resolving s) (gstate s) (conn s) (wbuf s) (stalled s) (outs s) (halted s) (stuck s) (regpay s) (clrstop s) (clrconn s) (evi s) (srvdelay s) (srvq s).
-Definition set_liveres (v : Z) (s : st) : st := mkst (now s) (boot s) (cycles0 s) (lat s) (lati s) (fired s) (seqc s) (t_wifi s) (t_timer1 s) (t_iter s) (t_wd s) (t_recon s) (t_stop s) (t_value s) (t_gpio2 s) (t_srv s) (wstatus s) (wlast s) (link s) v (deadres s) (script s) (started s) (registered s) (srpc s) (espbuf s) (recvbuf s) (lastresp s) (lastsent s) (nextwd s) (actto s) (resolving s) (gstate s) (conn s) (wbuf s) (stalled s) (outs s) (halted s) (stuck s) (regpay s) (clrstop s) (clrconn s) (evi s) (srvdelay s) (srvq s).
-Definition set_deadres (v : Z) (s : st) : st := mkst (now s) (boot s) (cycles0 s) (lat s) (lati s) (fired s) (seqc s) (t_wifi s) (t_timer1 s) (t_iter s) (t_wd s) (t_recon s) (t_stop s) (t_value s) (t_gpio2 s) (t_srv s) (wstatus s) (wlast s) (link s) (liveres s) v (script s) (started s) (registered s) (srpc s) (espbuf s) (recvbuf s) (lastresp s) (lastsent s) (nextwd s) (actto s) (resolving s) (gstate s) (conn s) (wbuf s) (stalled s) (outs s) (halted s) (stuck s) (regpay s) (clrstop s) (clrconn s) (evi s) (srvdelay s) (srvq s).
-Definition set_script (v : list Z) (s : st) : st := mkst (now s) (boot s) (cycles0 s) (lat s) (lati s) (fired s) (seqc s) (t_wifi s) (t_timer1 s) (t_iter s) (t_wd s) (t_recon s) (t_stop s) (t_value s) (t_gpio2 s) (t_srv s) (wstatus s) (wlast s) (link s) (liveres s) (deadres s) v (started s) (registered s) (srpc s) (espbuf s) (recvbuf s) (lastresp s) (lastsent s) (nextwd s) (actto s) (resolving s) (gstate s) (conn s) (wbuf s) (stalled s) (outs s) (halted s) (stuck s) (regpay s) (clrstop s) (clrconn s) (evi s) (srvdelay s) (srvq s).
-Definition set_started (v : bool) (s : st) : st := mkst (now s) (boot s) (cycles0 s) (lat s) (lati s) (fired s) (seqc s) (t_wifi s) (t_timer1 s) (t_iter s) (t_wd s) (t_recon s) (t_stop s) (t_value s) (t_gpio2 s) (t_srv s) (wstatus s) (wlast s) (link s) (liveres s) (deadres s) (script s) v (registered s) (srpc s) (espbuf s) (recvbuf s) (lastresp s) (lastsent s) (nextwd s) (actto s) (resolving s) (gstate s) (conn s) (wbuf s) (stalled s) (outs s) (halted s) (stuck s) (regpay s) (clrstop s) (clrconn s) (evi s) (srvdelay s) (srvq s).
-Definition set_registered (v : Z) (s : st) : st := mkst (now s) (boot s) (cycles0 s) (lat s) (lati s) (fired s) (seqc s) (t_wifi s) (t_timer1 s) (t_iter s) (t_wd s) (t_recon s) (t_stop s) (t_value s) (t_gpio2 s) (t_srv s) (wstatus s) (wlast s) (link s) (liveres s) (deadres s) (script s) (started s) v (srpc s) (espbuf s) (recvbuf s) (lastresp s) (lastsent s) (nextwd s) (actto s) (resolving s) (gstate s) (conn s) (wbuf s) (stalled s) (outs s) (halted s) (stuck s) (regpay s) (clrstop s) (clrconn s) (evi s) (srvdelay s) (srvq s).
-Definition set_srpc (v : option rpc) (s : st) : st := mkst (now s) (boot s) (cycles0 s) (lat s) (lati s) (fired s) (seqc s) (t_wifi s) (t_timer1 s) (t_iter s) (t_wd s) (t_recon s) (t_stop s) (t_value s) (t_gpio2 s) (t_srv s) (wstatus s) (wlast s) (link s) (liveres s) (deadres s) (script s) (started s) (registered s) v (espbuf s) (recvbuf s) (lastresp s) (lastsent s) (nextwd s) (actto s) (resolving s) (gstate s) (conn s) (wbuf s) (stalled s) (outs s) (halted s) (stuck s) (regpay s) (clrstop s) (clrconn s) (evi s) (srvdelay s) (srvq s).
-Definition set_espbuf (v : list Z) (s : st) : st := mkst (now s) (boot s) (cycles0 s) (lat s) (lati s) (fired s) (seqc s) (t_wifi s) (t_timer1 s) (t_iter s) (t_wd s) (t_recon s) (t_stop s) (t_value s) (t_gpio2 s) (t_srv s) (wstatus s) (wlast s) (link s) (liveres s) (deadres s) (script s) (started s) (registered s) (srpc s) v (recvbuf s) (lastresp s) (lastsent s) (nextwd s) (actto s) (resolving s) (gstate s) (conn s) (wbuf s) (stalled s) (outs s) (halted s) (stuck s) (regpay s) (clrstop s) (clrconn s) (evi s) (srvdelay s) (srvq s).
-Definition set_recvbuf (v : list Z) (s : st) : st := mkst (now s) (boot s) (cycles0 s) (lat s) (lati s) (fired s) (seqc s) (t_wifi s) (t_timer1 s) (t_iter s) (t_wd s) (t_recon s) (t_stop s) (t_value s) (t_gpio2 s) (t_srv s) (wstatus s) (wlast s) (link s) (liveres s) (deadres s) (script s) (started s) (registered s) (srpc s) (espbuf s) v (lastresp s) (lastsent s) (nextwd s) (actto s) (resolving s) (gstate s) (conn s) (wbuf s) (stalled s) (outs s) (halted s) (stuck s) (regpay s) (clrstop s) (clrconn s) (evi s) (srvdelay s) (srvq s).
-Definition set_lastresp (v : Z) (s : st) : st := mkst (now s) (boot s) (cycles0 s) (lat s) (lati s) (fired s) (seqc s) (t_wifi s) (t_timer1 s) (t_iter s) (t_wd s) (t_recon s) (t_stop s) (t_value s) (t_gpio2 s) (t_srv s) (wstatus s) (wlast s) (link s) (liveres s) (deadres s) (script s) (started s) (registered s) (srpc s) (espbuf s) (recvbuf s) v (lastsent s) (nextwd s) (actto s) (resolving s) (gstate s) (conn s) (wbuf s) (stalled s) (outs s) (halted s) (stuck s) (regpay s) (clrstop s) (clrconn s) (evi s) (srvdelay s) (srvq s).
-Definition set_lastsent (v : Z) (s : st) : st := mkst (now s) (boot s) (cycles0 s) (lat s) (lati s) (fired s) (seqc s) (t_wifi s) (t_timer1 s) (t_iter s) (t_wd s) (t_recon s) (t_stop s) (t_value s) (t_gpio2 s) (t_srv s) (wstatus s) (wlast s) (link s) (liveres s) (deadres s) (script s) (started s) (registered s) (srpc s) (espbuf s) (recvbuf s) (lastresp s) v (nextwd s) (actto s) (resolving s) (gstate s) (conn s) (wbuf s) (stalled s) (outs s) (halted s) (stuck s) (regpay s) (clrstop s) (clrconn s) (evi s) (srvdelay s) (srvq s).
-Definition set_nextwd (v : Z) (s : st) : st := mkst (now s) (boot s) (cycles0 s) (lat s) (lati s) (fired s) (seqc s) (t_wifi s) (t_timer1 s) (t_iter s) (t_wd s) (t_recon s) (t_stop s) (t_value s) (t_gpio2 s) (t_srv s) (wstatus s) (wlast s) (link s) (liveres s) (deadres s) (script s) (started s) (registered s) (srpc s) (espbuf s) (recvbuf s) (lastresp s) (lastsent s) v (actto s) (resolving s) (gstate s) (conn s) (wbuf s) (stalled s) (outs s) (halted s) (stuck s) (regpay s) (clrstop s) (clrconn s) (evi s) (srvdelay s) (srvq s).
-Definition set_actto (v : Z) (s : st) : st := mkst (now s) (boot s) (cycles0 s) (lat s) (lati s) (fired s) (seqc s) (t_wifi s) (t_timer1 s) (t_iter s) (t_wd s) (t_recon s) (t_stop s) (t_value s) (t_gpio2 s) (t_srv s) (wstatus s) (wlast s) (link s) (liveres s) (deadres s) (script s) (started s) (registered s) (srpc s) (espbuf s) (recvbuf s) (lastresp s) (lastsent s) (nextwd s) v (resolving s) (gstate s) (conn s) (wbuf s) (stalled s) (outs s) (halted s) (stuck s) (regpay s) (clrstop s) (clrconn s) (evi s) (srvdelay s) (srvq s).
-Definition set_resolving (v : bool) (s : st) : st := mkst (now s) (boot s) (cycles0 s) (lat s) (lati s) (fired s) (seqc s) (t_wifi s) (t_timer1 s) (t_iter s) (t_wd s) (t_recon s) (t_stop s) (t_value s) (t_gpio2 s) (t_srv s) (wstatus s) (wlast s) (link s) (liveres s) (deadres s) (script s) (started s) (registered s) (srpc s) (espbuf s) (recvbuf s) (lastresp s) (lastsent s) (nextwd s) (actto s) v (gstate s) (conn s) (wbuf s) (stalled s) (outs s) (halted s) (stuck s) (regpay s) (clrstop s) (clrconn s) (evi s) (srvdelay s) (srvq s).
-Definition set_gstate (v : Z) (s : st) : st := mkst (now s) (boot s) (cycles0 s) (lat s) (lati s) (fired s) (seqc s) (t_wifi s) (t_timer1 s) (t_iter s) (t_wd s) (t_recon s) (t_stop s) (t_value s) (t_gpio2 s) (t_srv s) (wstatus s) (wlast s) (link s) (liveres s) (deadres s) (script s) (started s) (registered s) (srpc s) (espbuf s) (recvbuf s) (lastresp s) (lastsent s) (nextwd s) (actto s) (resolving s) v (conn s) (wbuf s) (stalled s) (outs s) (halted s) (stuck s) (regpay s) (clrstop s) (clrconn s) (evi s) (srvdelay s) (srvq s).
-Definition set_conn (v : Z) (s : st) : st := mkst (now s) (boot s) (cycles0 s) (lat s) (lati s) (fired s) (seqc s) (t_wifi s) (t_timer1 s) (t_iter s) (t_wd s) (t_recon s) (t_stop s) (t_value s) (t_gpio2 s) (t_srv s) (wstatus s) (wlast s) (link s) (liveres s) (deadres s) (script s) (started s) (registered s) (srpc s) (espbuf s) (recvbuf s) (lastresp s) (lastsent s) (nextwd s) (actto s) (resolving s) (gstate s) v (wbuf s) (stalled s) (outs s) (halted s) (stuck s) (regpay s) (clrstop s) (clrconn s) (evi s) (srvdelay s) (srvq s).
-Definition set_wbuf (v : list Z) (s : st) : st := mkst (now s) (boot s) (cycles0 s) (lat s) (lati s) (fired s) (seqc s) (t_wifi s) (t_timer1 s) (t_iter s) (t_wd s) (t_recon s) (t_stop s) (t_value s) (t_gpio2 s) (t_srv s) (wstatus s) (wlast s) (link s) (liveres s) (deadres s) (script s) (started s) (registered s) (srpc s) (espbuf s) (recvbuf s) (lastresp s) (lastsent s) (nextwd s) (actto s) (resolving s) (gstate s) (conn s) v (stalled s) (outs s) (halted s) (stuck s) (regpay s) (clrstop s) (clrconn s) (evi s) (srvdelay s) (srvq s).
-Definition set_stalled (v : bool) (s : st) : st := mkst (now s) (boot s) (cycles0 s) (lat s) (lati s) (fired s) (seqc s) (t_wifi s) (t_timer1 s) (t_iter s) (t_wd s) (t_recon s) (t_stop s) (t_value s) (t_gpio2 s) (t_srv s) (wstatus s) (wlast s) (link s) (liveres s) (deadres s) (script s) (started s) (registered s) (srpc s) (espbuf s) (recvbuf s) (lastresp s) (lastsent s) (nextwd s) (actto s) (resolving s) (gstate s) (conn s) (wbuf s) v (outs s) (halted s) (stuck s) (regpay s) (clrstop s) (clrconn s) (evi s) (srvdelay s) (srvq s).
-Definition set_outs (v : list wire) (s : st) : st := mkst (now s) (boot s) (cycles0 s) (lat s) (lati s) (fired s) (seqc s) (t_wifi s) (t_timer1 s) (t_iter s) (t_wd s) (t_recon s) (t_stop s) (t_value s) (t_gpio2 s) (t_srv s) (wstatus s) (wlast s) (link s) (liveres s) (deadres s) (script s) (started s) (registered s) (srpc s) (espbuf s) (recvbuf s) (lastresp s) (lastsent s) (nextwd s) (actto s) (resolving s) (gstate s) (conn s) (wbuf s) (stalled s) v (halted s) (stuck s) (regpay s) (clrstop s) (clrconn s) (evi s) (srvdelay s) (srvq s).
-Definition set_halted (v : bool) (s : st) : st := mkst (now s) (boot s) (cycles0 s) (lat s) (lati s) (fired s) (seqc s) (t_wifi s) (t_timer1 s) (t_iter s) (t_wd s) (t_recon s) (t_stop s) (t_value s) (t_gpio2 s) (t_srv s) (wstatus s) (wlast s) (link s) (liveres s) (deadres s) (script s) (started s) (registered s) (srpc s) (espbuf s) (recvbuf s) (lastresp s) (lastsent s) (nextwd s) (actto s) (resolving s) (gstate s) (conn s) (wbuf s) (stalled s) (outs s) v (stuck s) (regpay s) (clrstop s) (clrconn s) (evi s) (srvdelay s) (srvq s).
-Definition set_stuck (v : bool) (s : st) : st := mkst (now s) (boot s) (cycles0 s) (lat s) (lati s) (fired s) (seqc s) (t_wifi s) (t_timer1 s) (t_iter s) (t_wd s) (t_recon s) (t_stop s) (t_value s) (t_gpio2 s) (t_srv s) (wstatus s) (wlast s) (link s) (liveres s) (deadres s) (script s) (started s) (registered s) (srpc s) (espbuf s) (recvbuf s) (lastresp s) (lastsent s) (nextwd s) (actto s) (resolving s) (gstate s) (conn s) (wbuf s) (stalled s) (outs s) (halted s) v (regpay s) (clrstop s) (clrconn s) (evi s) (srvdelay s) (srvq s).
-Definition set_regpay (v : list Z) (s : st) : st := mkst (now s) (boot s) (cycles0 s) (lat s) (lati s) (fired s) (seqc s) (t_wifi s) (t_timer1 s) (t_iter s) (t_wd s) (t_recon s) (t_stop s) (t_value s) (t_gpio2 s) (t_srv s) (wstatus s) (wlast s) (link s) (liveres s) (deadres s) (script s) (started s) (registered s) (srpc s) (espbuf s) (recvbuf s) (lastresp s) (lastsent s) (nextwd s) (actto s) (resolving s) (gstate s) (conn s) (wbuf s) (stalled s) (outs s) (halted s) (stuck s) v (clrstop s) (clrconn s) (evi s) (srvdelay s) (srvq s).
-Definition set_clrstop (v : bool) (s : st) : st := mkst (now s) (boot s) (cycles0 s) (lat s) (lati s) (fired s) (seqc s) (t_wifi s) (t_timer1 s) (t_iter s) (t_wd s) (t_recon s) (t_stop s) (t_value s) (t_gpio2 s) (t_srv s) (wstatus s) (wlast s) (link s) (liveres s) (deadres s) (script s) (started s) (registered s) (srpc s) (espbuf s) (recvbuf s) (lastresp s) (lastsent s) (nextwd s) (actto s) (resolving s) (gstate s) (conn s) (wbuf s) (stalled s) (outs s) (halted s) (stuck s) (regpay s) v (clrconn s) (evi s) (srvdelay s) (srvq s).
-Definition set_clrconn (v : bool) (s : st) : st := mkst (now s) (boot s) (cycles0 s) (lat s) (lati s) (fired s) (seqc s) (t_wifi s) (t_timer1 s) (t_iter s) (t_wd s) (t_recon s) (t_stop s) (t_value s) (t_gpio2 s) (t_srv s) (wstatus s) (wlast s) (link s) (liveres s) (deadres s) (script s) (started s) (registered s) (srpc s) (espbuf s) (recvbuf s) (lastresp s) (lastsent s) (nextwd s) (actto s) (resolving s) (gstate s) (conn s) (wbuf s) (stalled s) (outs s) (halted s) (stuck s) (regpay s) (clrstop s) v (evi s) (srvdelay s) (srvq s).
-Definition set_evi (v : Z) (s : st) : st := mkst (now s) (boot s) (cycles0 s) (lat s) (lati s) (fired s) (seqc s) (t_wifi s) (t_timer1 s) (t_iter s) (t_wd s) (t_recon s) (t_stop s) (t_value s) (t_gpio2 s) (t_srv s) (wstatus s) (wlast s) (link s) (liveres s) (deadres s) (script s) (started s) (registered s) (srpc s) (espbuf s) (recvbuf s) (lastresp s) (lastsent s) (nextwd s) (actto s) (resolving s) (gstate s) (conn s) (wbuf s) (stalled s) (outs s) (halted s) (stuck s) (regpay s) (clrstop s) (clrconn s) v (srvdelay s) (srvq s).
-Definition set_srvdelay (v : Z) (s : st) : st := mkst (now s) (boot s) (cycles0 s) (lat s) (lati s) (fired s) (seqc s) (t_wifi s) (t_timer1 s) (t_iter s) (t_wd s) (t_recon s) (t_stop s) (t_value s) (t_gpio2 s) (t_srv s) (wstatus s) (wlast s) (link s) (liveres s) (deadres s) (script s) (started s) (registered s) (srpc s) (espbuf s) (recvbuf s) (lastresp s) (lastsent s) (nextwd s) (actto s) (resolving s) (gstate s) (conn s) (wbuf s) (stalled s) (outs s) (halted s) (stuck s) (regpay s) (clrstop s) (clrconn s) (evi s) v (srvq s).
-Definition set_srvq (v : list Z) (s : st) : st := mkst (now s) (boot s) (cycles0 s) (lat s) (lati s) (fired s) (seqc s) (t_wifi s) (t_timer1 s) (t_iter s) (t_wd s) (t_recon s) (t_stop s) (t_value s) (t_gpio2 s) (t_srv s) (wstatus s) (wlast s) (link s) (liveres s) (deadres s) (script s) (started s) (registered s) (srpc s) (espbuf s) (recvbuf s) (lastresp s) (lastsent s) (nextwd s) (actto s) (resolving s) (gstate s) (conn s) (wbuf s) (stalled s) (outs s) (halted s) (stuck s) (regpay s) (clrstop s) (clrconn s) (evi s) (srvdelay s) v.
+Definition set_now (v : Z) (s : st) : st := mkst v (boot s) (cycles0 s) (lat s) (lati s) (fired s) (seqc s) (t_wifi s) (t_timer1 s) (t_iter s) (t_wd s) (t_recon s) (t_stop s) (t_value s) (t_gpio2 s) (t_srv s) (wstatus s) (wlast s) (link s) (liveres s) (deadres s) (script s) (started s) (registered s) (srpc s) (espbuf s) (recvbuf s) (lastresp s) (lastsent s) (nextwd s) (actto s) (resolving s) (gstate s) (conn s) (wbuf s) (stalled s) (outs s) (halted s) (stuck s) (regpay s) (clrstop s) (clrconn s) (evi s) (srvdelay s) (srvq s) (nresp s) (kabs s) (kenv s) (ktmo s).
+Definition set_boot (v : Z) (s : st) : st := mkst (now s) v (cycles0 s) (lat s) (lati s) (fired s) (seqc s) (t_wifi s) (t_timer1 s) (t_iter s) (t_wd s) (t_recon s) (t_stop s) (t_value s) (t_gpio2 s) (t_srv s) (wstatus s) (wlast s) (link s) (liveres s) (deadres s) (script s) (started s) (registered s) (srpc s) (espbuf s) (recvbuf s) (lastresp s) (lastsent s) (nextwd s) (actto s) (resolving s) (gstate s) (conn s) (wbuf s) (stalled s) (outs s) (halted s) (stuck s) (regpay s) (clrstop s) (clrconn s) (evi s) (srvdelay s) (srvq s) (nresp s) (kabs s) (kenv s) (ktmo s).
+Definition set_cycles0 (v : Z) (s : st) : st := mkst (now s) (boot s) v (lat s) (lati s) (fired s) (seqc s) (t_wifi s) (t_timer1 s) (t_iter s) (t_wd s) (t_recon s) (t_stop s) (t_value s) (t_gpio2 s) (t_srv s) (wstatus s) (wlast s) (link s) (liveres s) (deadres s) (script s) (started s) (registered s) (srpc s) (espbuf s) (recvbuf s) (lastresp s) (lastsent s) (nextwd s) (actto s) (resolving s) (gstate s) (conn s) (wbuf s) (stalled s) (outs s) (halted s) (stuck s) (regpay s) (clrstop s) (clrconn s) (evi s) (srvdelay s) (srvq s) (nresp s) (kabs s) (kenv s) (ktmo s).
+Definition set_lat (v : list Z) (s : st) : st := mkst (now s) (boot s) (cycles0 s) v (lati s) (fired s) (seqc s) (t_wifi s) (t_timer1 s) (t_iter s) (t_wd s) (t_recon s) (t_stop s) (t_value s) (t_gpio2 s) (t_srv s) (wstatus s) (wlast s) (link s) (liveres s) (deadres s) (script s) (started s) (registered s) (srpc s) (espbuf s) (recvbuf s) (lastresp s) (lastsent s) (nextwd s) (actto s) (resolving s) (gstate s) (conn s) (wbuf s) (stalled s) (outs s) (halted s) (stuck s) (regpay s) (clrstop s) (clrconn s) (evi s) (srvdelay s) (srvq s) (nresp s) (kabs s) (kenv s) (ktmo s).
+Definition set_lati (v : Z) (s : st) : st := mkst (now s) (boot s) (cycles0 s) (lat s) v (fired s) (seqc s) (t_wifi s) (t_timer1 s) (t_iter s) (t_wd s) (t_recon s) (t_stop s) (t_value s) (t_gpio2 s) (t_srv s) (wstatus s) (wlast s) (link s) (liveres s) (deadres s) (script s) (started s) (registered s) (srpc s) (espbuf s) (recvbuf s) (lastresp s) (lastsent s) (nextwd s) (actto s) (resolving s) (gstate s) (conn s) (wbuf s) (stalled s) (outs s) (halted s) (stuck s) (regpay s) (clrstop s) (clrconn s) (evi s) (srvdelay s) (srvq s) (nresp s) (kabs s) (kenv s) (ktmo s).
+Definition set_fired (v : Z) (s : st) : st := mkst (now s) (boot s) (cycles0 s) (lat s) (lati s) v (seqc s) (t_wifi s) (t_timer1 s) (t_iter s) (t_wd s) (t_recon s) (t_stop s) (t_value s) (t_gpio2 s) (t_srv s) (wstatus s) (wlast s) (link s) (liveres s) (deadres s) (script s) (started s) (registered s) (srpc s) (espbuf s) (recvbuf s) (lastresp s) (lastsent s) (nextwd s) (actto s) (resolving s) (gstate s) (conn s) (wbuf s) (stalled s) (outs s) (halted s) (stuck s) (regpay s) (clrstop s) (clrconn s) (evi s) (srvdelay s) (srvq s) (nresp s) (kabs s) (kenv s) (ktmo s).
+Definition set_seqc (v : Z) (s : st) : st := mkst (now s) (boot s) (cycles0 s) (lat s) (lati s) (fired s) v (t_wifi s) (t_timer1 s) (t_iter s) (t_wd s) (t_recon s) (t_stop s) (t_value s) (t_gpio2 s) (t_srv s) (wstatus s) (wlast s) (link s) (liveres s) (deadres s) (script s) (started s) (registered s) (srpc s) (espbuf s) (recvbuf s) (lastresp s) (lastsent s) (nextwd s) (actto s) (resolving s) (gstate s) (conn s) (wbuf s) (stalled s) (outs s) (halted s) (stuck s) (regpay s) (clrstop s) (clrconn s) (evi s) (srvdelay s) (srvq s) (nresp s) (kabs s) (kenv s) (ktmo s).
+Definition set_t_wifi (v : timer) (s : st) : st := mkst (now s) (boot s) (cycles0 s) (lat s) (lati s) (fired s) (seqc s) v (t_timer1 s) (t_iter s) (t_wd s) (t_recon s) (t_stop s) (t_value s) (t_gpio2 s) (t_srv s) (wstatus s) (wlast s) (link s) (liveres s) (deadres s) (script s) (started s) (registered s) (srpc s) (espbuf s) (recvbuf s) (lastresp s) (lastsent s) (nextwd s) (actto s) (resolving s) (gstate s) (conn s) (wbuf s) (stalled s) (outs s) (halted s) (stuck s) (regpay s) (clrstop s) (clrconn s) (evi s) (srvdelay s) (srvq s) (nresp s) (kabs s) (kenv s) (ktmo s).
+Definition set_t_timer1 (v : timer) (s : st) : st := mkst (now s) (boot s) (cycles0 s) (lat s) (lati s) (fired s) (seqc s) (t_wifi s) v (t_iter s) (t_wd s) (t_recon s) (t_stop s) (t_value s) (t_gpio2 s) (t_srv s) (wstatus s) (wlast s) (link s) (liveres s) (deadres s) (script s) (started s) (registered s) (srpc s) (espbuf s) (recvbuf s) (lastresp s) (lastsent s) (nextwd s) (actto s) (resolving s) (gstate s) (conn s) (wbuf s) (stalled s) (outs s) (halted s) (stuck s) (regpay s) (clrstop s) (clrconn s) (evi s) (srvdelay s) (srvq s) (nresp s) (kabs s) (kenv s) (ktmo s).
+Definition set_t_iter (v : timer) (s : st) : st := mkst (now s) (boot s) (cycles0 s) (lat s) (lati s) (fired s) (seqc s) (t_wifi s) (t_timer1 s) v (t_wd s) (t_recon s) (t_stop s) (t_value s) (t_gpio2 s) (t_srv s) (wstatus s) (wlast s) (link s) (liveres s) (deadres s) (script s) (started s) (registered s) (srpc s) (espbuf s) (recvbuf s) (lastresp s) (lastsent s) (nextwd s) (actto s) (resolving s) (gstate s) (conn s) (wbuf s) (stalled s) (outs s) (halted s) (stuck s) (regpay s) (clrstop s) (clrconn s) (evi s) (srvdelay s) (srvq s) (nresp s) (kabs s) (kenv s) (ktmo s).
+Definition set_t_wd (v : timer) (s : st) : st := mkst (now s) (boot s) (cycles0 s) (lat s) (lati s) (fired s) (seqc s) (t_wifi s) (t_timer1 s) (t_iter s) v (t_recon s) (t_stop s) (t_value s) (t_gpio2 s) (t_srv s) (wstatus s) (wlast s) (link s) (liveres s) (deadres s) (script s) (started s) (registered s) (srpc s) (espbuf s) (recvbuf s) (lastresp s) (lastsent s) (nextwd s) (actto s) (resolving s) (gstate s) (conn s) (wbuf s) (stalled s) (outs s) (halted s) (stuck s) (regpay s) (clrstop s) (clrconn s) (evi s) (srvdelay s) (srvq s) (nresp s) (kabs s) (kenv s) (ktmo s).
+Definition set_t_recon (v : timer) (s : st) : st := mkst (now s) (boot s) (cycles0 s) (lat s) (lati s) (fired s) (seqc s) (t_wifi s) (t_timer1 s) (t_iter s) (t_wd s) v (t_stop s) (t_value s) (t_gpio2 s) (t_srv s) (wstatus s) (wlast s) (link s) (liveres s) (deadres s) (script s) (started s) (registered s) (srpc s) (espbuf s) (recvbuf s) (lastresp s) (lastsent s) (nextwd s) (actto s) (resolving s) (gstate s) (conn s) (wbuf s) (stalled s) (outs s) (halted s) (stuck s) (regpay s) (clrstop s) (clrconn s) (evi s) (srvdelay s) (srvq s) (nresp s) (kabs s) (kenv s) (ktmo s).
+Definition set_t_stop (v : timer) (s : st) : st := mkst (now s) (boot s) (cycles0 s) (lat s) (lati s) (fired s) (seqc s) (t_wifi s) (t_timer1 s) (t_iter s) (t_wd s) (t_recon s) v (t_value s) (t_gpio2 s) (t_srv s) (wstatus s) (wlast s) (link s) (liveres s) (deadres s) (script s) (started s) (registered s) (srpc s) (espbuf s) (recvbuf s) (lastresp s) (lastsent s) (nextwd s) (actto s) (resolving s) (gstate s) (conn s) (wbuf s) (stalled s) (outs s) (halted s) (stuck s) (regpay s) (clrstop s) (clrconn s) (evi s) (srvdelay s) (srvq s) (nresp s) (kabs s) (kenv s) (ktmo s).
+Definition set_t_value (v : timer) (s : st) : st := mkst (now s) (boot s) (cycles0 s) (lat s) (lati s) (fired s) (seqc s) (t_wifi s) (t_timer1 s) (t_iter s) (t_wd s) (t_recon s) (t_stop s) v (t_gpio2 s) (t_srv s) (wstatus s) (wlast s) (link s) (liveres s) (deadres s) (script s) (started s) (registered s) (srpc s) (espbuf s) (recvbuf s) (lastresp s) (lastsent s) (nextwd s) (actto s) (resolving s) (gstate s) (conn s) (wbuf s) (stalled s) (outs s) (halted s) (stuck s) (regpay s) (clrstop s) (clrconn s) (evi s) (srvdelay s) (srvq s) (nresp s) (kabs s) (kenv s) (ktmo s).
+Definition set_t_gpio2 (v : timer) (s : st) : st := mkst (now s) (boot s) (cycles0 s) (lat s) (lati s) (fired s) (seqc s) (t_wifi s) (t_timer1 s) (t_iter s) (t_wd s) (t_recon s) (t_stop s) (t_value s) v (t_srv s) (wstatus s) (wlast s) (link s) (liveres s) (deadres s) (script s) (started s) (registered s) (srpc s) (espbuf s) (recvbuf s) (lastresp s) (lastsent s) (nextwd s) (actto s) (resolving s) (gstate s) (conn s) (wbuf s) (stalled s) (outs s) (halted s) (stuck s) (regpay s) (clrstop s) (clrconn s) (evi s) (srvdelay s) (srvq s) (nresp s) (kabs s) (kenv s) (ktmo s).
+Definition set_t_srv (v : timer) (s : st) : st := mkst (now s) (boot s) (cycles0 s) (lat s) (lati s) (fired s) (seqc s) (t_wifi s) (t_timer1 s) (t_iter s) (t_wd s) (t_recon s) (t_stop s) (t_value s) (t_gpio2 s) v (wstatus s) (wlast s) (link s) (liveres s) (deadres s) (script s) (started s) (registered s) (srpc s) (espbuf s) (recvbuf s) (lastresp s) (lastsent s) (nextwd s) (actto s) (resolving s) (gstate s) (conn s) (wbuf s) (stalled s) (outs s) (halted s) (stuck s) (regpay s) (clrstop s) (clrconn s) (evi s) (srvdelay s) (srvq s) (nresp s) (kabs s) (kenv s) (ktmo s).
+Definition set_wstatus (v : Z) (s : st) : st := mkst (now s) (boot s) (cycles0 s) (lat s) (lati s) (fired s) (seqc s) (t_wifi s) (t_timer1 s) (t_iter s) (t_wd s) (t_recon s) (t_stop s) (t_value s) (t_gpio2 s) (t_srv s) v (wlast s) (link s) (liveres s) (deadres s) (script s) (started s) (registered s) (srpc s) (espbuf s) (recvbuf s) (lastresp s) (lastsent s) (nextwd s) (actto s) (resolving s) (gstate s) (conn s) (wbuf s) (stalled s) (outs s) (halted s) (stuck s) (regpay s) (clrstop s) (clrconn s) (evi s) (srvdelay s) (srvq s) (nresp s) (kabs s) (kenv s) (ktmo s).
+Definition set_wlast (v : Z) (s : st) : st := mkst (now s) (boot s) (cycles0 s) (lat s) (lati s) (fired s) (seqc s) (t_wifi s) (t_timer1 s) (t_iter s) (t_wd s) (t_recon s) (t_stop s) (t_value s) (t_gpio2 s) (t_srv s) (wstatus s) v (link s) (liveres s) (deadres s) (script s) (started s) (registered s) (srpc s) (espbuf s) (recvbuf s) (lastresp s) (lastsent s) (nextwd s) (actto s) (resolving s) (gstate s) (conn s) (wbuf s) (stalled s) (outs s) (halted s) (stuck s) (regpay s) (clrstop s) (clrconn s) (evi s) (srvdelay s) (srvq s) (nresp s) (kabs s) (kenv s) (ktmo s).
+Definition set_link (v : Z) (s : st) : st := mkst (now s) (boot s) (cycles0 s) (lat s) (lati s) (fired s) (seqc s) (t_wifi s) (t_timer1 s) (t_iter s) (t_wd s) (t_recon s) (t_stop s) (t_value s) (t_gpio2 s) (t_srv s) (wstatus s) (wlast s) v (liveres s) (deadres s) (script s) (started s) (registered s) (srpc s) (espbuf s) (recvbuf s) (lastresp s) (lastsent s) (nextwd s) (actto s) (resolving s) (gstate s) (conn s) (wbuf s) (stalled s) (outs s) (halted s) (stuck s) (regpay s) (clrstop s) (clrconn s) (evi s) (srvdelay s) (srvq s) (nresp s) (kabs s) (kenv s) (ktmo s).
+Definition set_liveres (v : Z) (s : st) : st := mkst (now s) (boot s) (cycles0 s) (lat s) (lati s) (fired s) (seqc s) (t_wifi s) (t_timer1 s) (t_iter s) (t_wd s) (t_recon s) (t_stop s) (t_value s) (t_gpio2 s) (t_srv s) (wstatus s) (wlast s) (link s) v (deadres s) (script s) (started s) (registered s) (srpc s) (espbuf s) (recvbuf s) (lastresp s) (lastsent s) (nextwd s) (actto s) (resolving s) (gstate s) (conn s) (wbuf s) (stalled s) (outs s) (halted s) (stuck s) (regpay s) (clrstop s) (clrconn s) (evi s) (srvdelay s) (srvq s) (nresp s) (kabs s) (kenv s) (ktmo s).
+Definition set_deadres (v : Z) (s : st) : st := mkst (now s) (boot s) (cycles0 s) (lat s) (lati s) (fired s) (seqc s) (t_wifi s) (t_timer1 s) (t_iter s) (t_wd s) (t_recon s) (t_stop s) (t_value s) (t_gpio2 s) (t_srv s) (wstatus s) (wlast s) (link s) (liveres s) v (script s) (started s) (registered s) (srpc s) (espbuf s) (recvbuf s) (lastresp s) (lastsent s) (nextwd s) (actto s) (resolving s) (gstate s) (conn s) (wbuf s) (stalled s) (outs s) (halted s) (stuck s) (regpay s) (clrstop s) (clrconn s) (evi s) (srvdelay s) (srvq s) (nresp s) (kabs s) (kenv s) (ktmo s).
+Definition set_script (v : list Z) (s : st) : st := mkst (now s) (boot s) (cycles0 s) (lat s) (lati s) (fired s) (seqc s) (t_wifi s) (t_timer1 s) (t_iter s) (t_wd s) (t_recon s) (t_stop s) (t_value s) (t_gpio2 s) (t_srv s) (wstatus s) (wlast s) (link s) (liveres s) (deadres s) v (started s) (registered s) (srpc s) (espbuf s) (recvbuf s) (lastresp s) (lastsent s) (nextwd s) (actto s) (resolving s) (gstate s) (conn s) (wbuf s) (stalled s) (outs s) (halted s) (stuck s) (regpay s) (clrstop s) (clrconn s) (evi s) (srvdelay s) (srvq s) (nresp s) (kabs s) (kenv s) (ktmo s).
+Definition set_started (v : bool) (s : st) : st := mkst (now s) (boot s) (cycles0 s) (lat s) (lati s) (fired s) (seqc s) (t_wifi s) (t_timer1 s) (t_iter s) (t_wd s) (t_recon s) (t_stop s) (t_value s) (t_gpio2 s) (t_srv s) (wstatus s) (wlast s) (link s) (liveres s) (deadres s) (script s) v (registered s) (srpc s) (espbuf s) (recvbuf s) (lastresp s) (lastsent s) (nextwd s) (actto s) (resolving s) (gstate s) (conn s) (wbuf s) (stalled s) (outs s) (halted s) (stuck s) (regpay s) (clrstop s) (clrconn s) (evi s) (srvdelay s) (srvq s) (nresp s) (kabs s) (kenv s) (ktmo s).
+Definition set_registered (v : Z) (s : st) : st := mkst (now s) (boot s) (cycles0 s) (lat s) (lati s) (fired s) (seqc s) (t_wifi s) (t_timer1 s) (t_iter s) (t_wd s) (t_recon s) (t_stop s) (t_value s) (t_gpio2 s) (t_srv s) (wstatus s) (wlast s) (link s) (liveres s) (deadres s) (script s) (started s) v (srpc s) (espbuf s) (recvbuf s) (lastresp s) (lastsent s) (nextwd s) (actto s) (resolving s) (gstate s) (conn s) (wbuf s) (stalled s) (outs s) (halted s) (stuck s) (regpay s) (clrstop s) (clrconn s) (evi s) (srvdelay s) (srvq s) (nresp s) (kabs s) (kenv s) (ktmo s).
+Definition set_srpc (v : option rpc) (s : st) : st := mkst (now s) (boot s) (cycles0 s) (lat s) (lati s) (fired s) (seqc s) (t_wifi s) (t_timer1 s) (t_iter s) (t_wd s) (t_recon s) (t_stop s) (t_value s) (t_gpio2 s) (t_srv s) (wstatus s) (wlast s) (link s) (liveres s) (deadres s) (script s) (started s) (registered s) v (espbuf s) (recvbuf s) (lastresp s) (lastsent s) (nextwd s) (actto s) (resolving s) (gstate s) (conn s) (wbuf s) (stalled s) (outs s) (halted s) (stuck s) (regpay s) (clrstop s) (clrconn s) (evi s) (srvdelay s) (srvq s) (nresp s) (kabs s) (kenv s) (ktmo s).
+Definition set_espbuf (v : list Z) (s : st) : st := mkst (now s) (boot s) (cycles0 s) (lat s) (lati s) (fired s) (seqc s) (t_wifi s) (t_timer1 s) (t_iter s) (t_wd s) (t_recon s) (t_stop s) (t_value s) (t_gpio2 s) (t_srv s) (wstatus s) (wlast s) (link s) (liveres s) (deadres s) (script s) (started s) (registered s) (srpc s) v (recvbuf s) (lastresp s) (lastsent s) (nextwd s) (actto s) (resolving s) (gstate s) (conn s) (wbuf s) (stalled s) (outs s) (halted s) (stuck s) (regpay s) (clrstop s) (clrconn s) (evi s) (srvdelay s) (srvq s) (nresp s) (kabs s) (kenv s) (ktmo s).
+Definition set_recvbuf (v : list Z) (s : st) : st := mkst (now s) (boot s) (cycles0 s) (lat s) (lati s) (fired s) (seqc s) (t_wifi s) (t_timer1 s) (t_iter s) (t_wd s) (t_recon s) (t_stop s) (t_value s) (t_gpio2 s) (t_srv s) (wstatus s) (wlast s) (link s) (liveres s) (deadres s) (script s) (started s) (registered s) (srpc s) (espbuf s) v (lastresp s) (lastsent s) (nextwd s) (actto s) (resolving s) (gstate s) (conn s) (wbuf s) (stalled s) (outs s) (halted s) (stuck s) (regpay s) (clrstop s) (clrconn s) (evi s) (srvdelay s) (srvq s) (nresp s) (kabs s) (kenv s) (ktmo s).
+Definition set_lastresp (v : Z) (s : st) : st := mkst (now s) (boot s) (cycles0 s) (lat s) (lati s) (fired s) (seqc s) (t_wifi s) (t_timer1 s) (t_iter s) (t_wd s) (t_recon s) (t_stop s) (t_value s) (t_gpio2 s) (t_srv s) (wstatus s) (wlast s) (link s) (liveres s) (deadres s) (script s) (started s) (registered s) (srpc s) (espbuf s) (recvbuf s) v (lastsent s) (nextwd s) (actto s) (resolving s) (gstate s) (conn s) (wbuf s) (stalled s) (outs s) (halted s) (stuck s) (regpay s) (clrstop s) (clrconn s) (evi s) (srvdelay s) (srvq s) (nresp s) (kabs s) (kenv s) (ktmo s).
+Definition set_lastsent (v : Z) (s : st) : st := mkst (now s) (boot s) (cycles0 s) (lat s) (lati s) (fired s) (seqc s) (t_wifi s) (t_timer1 s) (t_iter s) (t_wd s) (t_recon s) (t_stop s) (t_value s) (t_gpio2 s) (t_srv s) (wstatus s) (wlast s) (link s) (liveres s) (deadres s) (script s) (started s) (registered s) (srpc s) (espbuf s) (recvbuf s) (lastresp s) v (nextwd s) (actto s) (resolving s) (gstate s) (conn s) (wbuf s) (stalled s) (outs s) (halted s) (stuck s) (regpay s) (clrstop s) (clrconn s) (evi s) (srvdelay s) (srvq s) (nresp s) (kabs s) (kenv s) (ktmo s).
+Definition set_nextwd (v : Z) (s : st) : st := mkst (now s) (boot s) (cycles0 s) (lat s) (lati s) (fired s) (seqc s) (t_wifi s) (t_timer1 s) (t_iter s) (t_wd s) (t_recon s) (t_stop s) (t_value s) (t_gpio2 s) (t_srv s) (wstatus s) (wlast s) (link s) (liveres s) (deadres s) (script s) (started s) (registered s) (srpc s) (espbuf s) (recvbuf s) (lastresp s) (lastsent s) v (actto s) (resolving s) (gstate s) (conn s) (wbuf s) (stalled s) (outs s) (halted s) (stuck s) (regpay s) (clrstop s) (clrconn s) (evi s) (srvdelay s) (srvq s) (nresp s) (kabs s) (kenv s) (ktmo s).
+Definition set_actto (v : Z) (s : st) : st := mkst (now s) (boot s) (cycles0 s) (lat s) (lati s) (fired s) (seqc s) (t_wifi s) (t_timer1 s) (t_iter s) (t_wd s) (t_recon s) (t_stop s) (t_value s) (t_gpio2 s) (t_srv s) (wstatus s) (wlast s) (link s) (liveres s) (deadres s) (script s) (started s) (registered s) (srpc s) (espbuf s) (recvbuf s) (lastresp s) (lastsent s) (nextwd s) v (resolving s) (gstate s) (conn s) (wbuf s) (stalled s) (outs s) (halted s) (stuck s) (regpay s) (clrstop s) (clrconn s) (evi s) (srvdelay s) (srvq s) (nresp s) (kabs s) (kenv s) (ktmo s).
+Definition set_resolving (v : bool) (s : st) : st := mkst (now s) (boot s) (cycles0 s) (lat s) (lati s) (fired s) (seqc s) (t_wifi s) (t_timer1 s) (t_iter s) (t_wd s) (t_recon s) (t_stop s) (t_value s) (t_gpio2 s) (t_srv s) (wstatus s) (wlast s) (link s) (liveres s) (deadres s) (script s) (started s) (registered s) (srpc s) (espbuf s) (recvbuf s) (lastresp s) (lastsent s) (nextwd s) (actto s) v (gstate s) (conn s) (wbuf s) (stalled s) (outs s) (halted s) (stuck s) (regpay s) (clrstop s) (clrconn s) (evi s) (srvdelay s) (srvq s) (nresp s) (kabs s) (kenv s) (ktmo s).
+Definition set_gstate (v : Z) (s : st) : st := mkst (now s) (boot s) (cycles0 s) (lat s) (lati s) (fired s) (seqc s) (t_wifi s) (t_timer1 s) (t_iter s) (t_wd s) (t_recon s) (t_stop s) (t_value s) (t_gpio2 s) (t_srv s) (wstatus s) (wlast s) (link s) (liveres s) (deadres s) (script s) (started s) (registered s) (srpc s) (espbuf s) (recvbuf s) (lastresp s) (lastsent s) (nextwd s) (actto s) (resolving s) v (conn s) (wbuf s) (stalled s) (outs s) (halted s) (stuck s) (regpay s) (clrstop s) (clrconn s) (evi s) (srvdelay s) (srvq s) (nresp s) (kabs s) (kenv s) (ktmo s).
+Definition set_conn (v : Z) (s : st) : st := mkst (now s) (boot s) (cycles0 s) (lat s) (lati s) (fired s) (seqc s) (t_wifi s) (t_timer1 s) (t_iter s) (t_wd s) (t_recon s) (t_stop s) (t_value s) (t_gpio2 s) (t_srv s) (wstatus s) (wlast s) (link s) (liveres s) (deadres s) (script s) (started s) (registered s) (srpc s) (espbuf s) (recvbuf s) (lastresp s) (lastsent s) (nextwd s) (actto s) (resolving s) (gstate s) v (wbuf s) (stalled s) (outs s) (halted s) (stuck s) (regpay s) (clrstop s) (clrconn s) (evi s) (srvdelay s) (srvq s) (nresp s) (kabs s) (kenv s) (ktmo s).
+Definition set_wbuf (v : list Z) (s : st) : st := mkst (now s) (boot s) (cycles0 s) (lat s) (lati s) (fired s) (seqc s) (t_wifi s) (t_timer1 s) (t_iter s) (t_wd s) (t_recon s) (t_stop s) (t_value s) (t_gpio2 s) (t_srv s) (wstatus s) (wlast s) (link s) (liveres s) (deadres s) (script s) (started s) (registered s) (srpc s) (espbuf s) (recvbuf s) (lastresp s) (lastsent s) (nextwd s) (actto s) (resolving s) (gstate s) (conn s) v (stalled s) (outs s) (halted s) (stuck s) (regpay s) (clrstop s) (clrconn s) (evi s) (srvdelay s) (srvq s) (nresp s) (kabs s) (kenv s) (ktmo s).
+Definition set_stalled (v : bool) (s : st) : st := mkst (now s) (boot s) (cycles0 s) (lat s) (lati s) (fired s) (seqc s) (t_wifi s) (t_timer1 s) (t_iter s) (t_wd s) (t_recon s) (t_stop s) (t_value s) (t_gpio2 s) (t_srv s) (wstatus s) (wlast s) (link s) (liveres s) (deadres s) (script s) (started s) (registered s) (srpc s) (espbuf s) (recvbuf s) (lastresp s) (lastsent s) (nextwd s) (actto s) (resolving s) (gstate s) (conn s) (wbuf s) v (outs s) (halted s) (stuck s) (regpay s) (clrstop s) (clrconn s) (evi s) (srvdelay s) (srvq s) (nresp s) (kabs s) (kenv s) (ktmo s).
+Definition set_outs (v : list wire) (s : st) : st := mkst (now s) (boot s) (cycles0 s) (lat s) (lati s) (fired s) (seqc s) (t_wifi s) (t_timer1 s) (t_iter s) (t_wd s) (t_recon s) (t_stop s) (t_value s) (t_gpio2 s) (t_srv s) (wstatus s) (wlast s) (link s) (liveres s) (deadres s) (script s) (started s) (registered s) (srpc s) (espbuf s) (recvbuf s) (lastresp s) (lastsent s) (nextwd s) (actto s) (resolving s) (gstate s) (conn s) (wbuf s) (stalled s) v (halted s) (stuck s) (regpay s) (clrstop s) (clrconn s) (evi s) (srvdelay s) (srvq s) (nresp s) (kabs s) (kenv s) (ktmo s).
+Definition set_halted (v : bool) (s : st) : st := mkst (now s) (boot s) (cycles0 s) (lat s) (lati s) (fired s) (seqc s) (t_wifi s) (t_timer1 s) (t_iter s) (t_wd s) (t_recon s) (t_stop s) (t_value s) (t_gpio2 s) (t_srv s) (wstatus s) (wlast s) (link s) (liveres s) (deadres s) (script s) (started s) (registered s) (srpc s) (espbuf s) (recvbuf s) (lastresp s) (lastsent s) (nextwd s) (actto s) (resolving s) (gstate s) (conn s) (wbuf s) (stalled s) (outs s) v (stuck s) (regpay s) (clrstop s) (clrconn s) (evi s) (srvdelay s) (srvq s) (nresp s) (kabs s) (kenv s) (ktmo s).
+Definition set_stuck (v : bool) (s : st) : st := mkst (now s) (boot s) (cycles0 s) (lat s) (lati s) (fired s) (seqc s) (t_wifi s) (t_timer1 s) (t_iter s) (t_wd s) (t_recon s) (t_stop s) (t_value s) (t_gpio2 s) (t_srv s) (wstatus s) (wlast s) (link s) (liveres s) (deadres s) (script s) (started s) (registered s) (srpc s) (espbuf s) (recvbuf s) (lastresp s) (lastsent s) (nextwd s) (actto s) (resolving s) (gstate s) (conn s) (wbuf s) (stalled s) (outs s) (halted s) v (regpay s) (clrstop s) (clrconn s) (evi s) (srvdelay s) (srvq s) (nresp s) (kabs s) (kenv s) (ktmo s).
+Definition set_regpay (v : list Z) (s : st) : st := mkst (now s) (boot s) (cycles0 s) (lat s) (lati s) (fired s) (seqc s) (t_wifi s) (t_timer1 s) (t_iter s) (t_wd s) (t_recon s) (t_stop s) (t_value s) (t_gpio2 s) (t_srv s) (wstatus s) (wlast s) (link s) (liveres s) (deadres s) (script s) (started s) (registered s) (srpc s) (espbuf s) (recvbuf s) (lastresp s) (lastsent s) (nextwd s) (actto s) (resolving s) (gstate s) (conn s) (wbuf s) (stalled s) (outs s) (halted s) (stuck s) v (clrstop s) (clrconn s) (evi s) (srvdelay s) (srvq s) (nresp s) (kabs s) (kenv s) (ktmo s).
+Definition set_clrstop (v : bool) (s : st) : st := mkst (now s) (boot s) (cycles0 s) (lat s) (lati s) (fired s) (seqc s) (t_wifi s) (t_timer1 s) (t_iter s) (t_wd s) (t_recon s) (t_stop s) (t_value s) (t_gpio2 s) (t_srv s) (wstatus s) (wlast s) (link s) (liveres s) (deadres s) (script s) (started s) (registered s) (srpc s) (espbuf s) (recvbuf s) (lastresp s) (lastsent s) (nextwd s) (actto s) (resolving s) (gstate s) (conn s) (wbuf s) (stalled s) (outs s) (halted s) (stuck s) (regpay s) v (clrconn s) (evi s) (srvdelay s) (srvq s) (nresp s) (kabs s) (kenv s) (ktmo s).
+Definition set_clrconn (v : bool) (s : st) : st := mkst (now s) (boot s) (cycles0 s) (lat s) (lati s) (fired s) (seqc s) (t_wifi s) (t_timer1 s) (t_iter s) (t_wd s) (t_recon s) (t_stop s) (t_value s) (t_gpio2 s) (t_srv s) (wstatus s) (wlast s) (link s) (liveres s) (deadres s) (script s) (started s) (registered s) (srpc s) (espbuf s) (recvbuf s) (lastresp s) (lastsent s) (nextwd s) (actto s) (resolving s) (gstate s) (conn s) (wbuf s) (stalled s) (outs s) (halted s) (stuck s) (regpay s) (clrstop s) v (evi s) (srvdelay s) (srvq s) (nresp s) (kabs s) (kenv s) (ktmo s).
+Definition set_evi (v : Z) (s : st) : st := mkst (now s) (boot s) (cycles0 s) (lat s) (lati s) (fired s) (seqc s) (t_wifi s) (t_timer1 s) (t_iter s) (t_wd s) (t_recon s) (t_stop s) (t_value s) (t_gpio2 s) (t_srv s) (wstatus s) (wlast s) (link s) (liveres s) (deadres s) (script s) (started s) (registered s) (srpc s) (espbuf s) (recvbuf s) (lastresp s) (lastsent s) (nextwd s) (actto s) (resolving s) (gstate s) (conn s) (wbuf s) (stalled s) (outs s) (halted s) (stuck s) (regpay s) (clrstop s) (clrconn s) v (srvdelay s) (srvq s) (nresp s) (kabs s) (kenv s) (ktmo s).
+Definition set_srvdelay (v : Z) (s : st) : st := mkst (now s) (boot s) (cycles0 s) (lat s) (lati s) (fired s) (seqc s) (t_wifi s) (t_timer1 s) (t_iter s) (t_wd s) (t_recon s) (t_stop s) (t_value s) (t_gpio2 s) (t_srv s) (wstatus s) (wlast s) (link s) (liveres s) (deadres s) (script s) (started s) (registered s) (srpc s) (espbuf s) (recvbuf s) (lastresp s) (lastsent s) (nextwd s) (actto s) (resolving s) (gstate s) (conn s) (wbuf s) (stalled s) (outs s) (halted s) (stuck s) (regpay s) (clrstop s) (clrconn s) (evi s) v (srvq s) (nresp s) (kabs s) (kenv s) (ktmo s).
+Definition set_srvq (v : list Z) (s : st) : st := mkst (now s) (boot s) (cycles0 s) (lat s) (lati s) (fired s) (seqc s) (t_wifi s) (t_timer1 s) (t_iter s) (t_wd s) (t_recon s) (t_stop s) (t_value s) (t_gpio2 s) (t_srv s) (wstatus s) (wlast s) (link s) (liveres s) (deadres s) (script s) (started s) (registered s) (srpc s) (espbuf s) (recvbuf s) (lastresp s) (lastsent s) (nextwd s) (actto s) (resolving s) (gstate s) (conn s) (wbuf s) (stalled s) (outs s) (halted s) (stuck s) (regpay s) (clrstop s) (clrconn s) (evi s) (srvdelay s) v (nresp s) (kabs s) (kenv s) (ktmo s).
+Definition set_nresp (v : Z) (s : st) : st := mkst (now s) (boot s) (cycles0 s) (lat s) (lati s) (fired s) (seqc s) (t_wifi s) (t_timer1 s) (t_iter s) (t_wd s) (t_recon s) (t_stop s) (t_value s) (t_gpio2 s) (t_srv s) (wstatus s) (wlast s) (link s) (liveres s) (deadres s) (script s) (started s) (registered s) (srpc s) (espbuf s) (recvbuf s) (lastresp s) (lastsent s) (nextwd s) (actto s) (resolving s) (gstate s) (conn s) (wbuf s) (stalled s) (outs s) (halted s) (stuck s) (regpay s) (clrstop s) (clrconn s) (evi s) (srvdelay s) (srvq s) v (kabs s) (kenv s) (ktmo s).
+Definition set_kabs (v : kst) (s : st) : st := mkst (now s) (boot s) (cycles0 s) (lat s) (lati s) (fired s) (seqc s) (t_wifi s) (t_timer1 s) (t_iter s) (t_wd s) (t_recon s) (t_stop s) (t_value s) (t_gpio2 s) (t_srv s) (wstatus s) (wlast s) (link s) (liveres s) (deadres s) (script s) (started s) (registered s) (srpc s) (espbuf s) (recvbuf s) (lastresp s) (lastsent s) (nextwd s) (actto s) (resolving s) (gstate s) (conn s) (wbuf s) (stalled s) (outs s) (halted s) (stuck s) (regpay s) (clrstop s) (clrconn s) (evi s) (srvdelay s) (srvq s) (nresp s) v (kenv s) (ktmo s).
+Definition set_kenv (v : bool) (s : st) : st := mkst (now s) (boot s) (cycles0 s) (lat s) (lati s) (fired s) (seqc s) (t_wifi s) (t_timer1 s) (t_iter s) (t_wd s) (t_recon s) (t_stop s) (t_value s) (t_gpio2 s) (t_srv s) (wstatus s) (wlast s) (link s) (liveres s) (deadres s) (script s) (started s) (registered s) (srpc s) (espbuf s) (recvbuf s) (lastresp s) (lastsent s) (nextwd s) (actto s) (resolving s) (gstate s) (conn s) (wbuf s) (stalled s) (outs s) (halted s) (stuck s) (regpay s) (clrstop s) (clrconn s) (evi s) (srvdelay s) (srvq s) (nresp s) (kabs s) v (ktmo s).
+Definition set_ktmo (v : Z) (s : st) : st := mkst (now s) (boot s) (cycles0 s) (lat s) (lati s) (fired s) (seqc s) (t_wifi s) (t_timer1 s) (t_iter s) (t_wd s) (t_recon s) (t_stop s) (t_value s) (t_gpio2 s) (t_srv s) (wstatus s) (wlast s) (link s) (liveres s) (deadres s) (script s) (started s) (registered s) (srpc s) (espbuf s) (recvbuf s) (lastresp s) (lastsent s) (nextwd s) (actto s) (resolving s) (gstate s) (conn s) (wbuf s) (stalled s) (outs s) (halted s) (stuck s) (regpay s) (clrstop s) (clrconn s) (evi s) (srvdelay s) (srvq s) (nresp s) (kabs s) (kenv s) v.
 
 Definition get_tm (i : tid) (s : st) : timer :=
   match i with T_wifi => t_wifi s | T_timer1 => t_timer1 s | T_iter => t_iter s | T_wd => t_wd s
@@ -154,6 +162,14 @@ Definition emit (k : Z) (a : list Z) (s : st) : st := set_outs (mk k a [] :: out
 Definition uptime_usec (s : st) : Z :=
   let t := boot s + now s in (cycles0 s + t / 4294967296) * 4294967295 + t mod 4294967296.
 Definition uptime (s : st) : Z := u32 (uptime_usec s / 1000 / 1000).
+
+(* ghost: the abstract keep-alive semantics run in lockstep (does not influence any output) *)
+Definition k_event (e : kev) (s : st) : st :=
+  set_kabs (kstep (ktmo s) (kabs s) e) (set_kenv (kenv s && kenv_ok (ktmo s) (kabs s) e) s).
+Definition k_reset (s : st) : st :=      (* a new episode starts when the registration is accepted / a timeout is granted *)
+  let up := uptime s in
+  set_ktmo (actto s) (set_kabs (kinit up (lastsent s))
+    (set_kenv ((0 <=? lastsent s) && (lastsent s <=? up) && (up <? 4294967296) && (up - lastsent s <=? actto s - 3)) s)).
 
 (* os_timer_arm (ets_timer_arm_new with ms=1) / os_timer_disarm *)
 Definition arm (i : tid) (ms : Z) (rep : bool) (s : st) : st :=
@@ -221,13 +237,13 @@ Definition append_buffer (b : list Z) (s : st) : st :=
 Definition data_write (b : list Z) (s : st) : st :=
   let s1 := if 0 <? len (espbuf s) then
               let '(r, s') := sdk_sent s in
-              if r =? 0 then set_lastsent (uptime s') (wire_accept (espbuf s') (set_espbuf [] s')) else s'
+              if r =? 0 then k_event (Sent (uptime s')) (set_lastsent (uptime s') (wire_accept (espbuf s') (set_espbuf [] s'))) else s'
             else s in
   if 0 <? len (espbuf s1) then append_buffer b s1
   else if 0 <? len b then
     let '(r, s2) := sdk_sent s1 in
     if (r =? ESP_INPROGRESS) || (r =? ESP_MAXNUM) then append_buffer b s2
-    else if r =? 0 then set_lastsent (uptime s2) (wire_accept b s2) else s2
+    else if r =? 0 then k_event (Sent (uptime s2)) (set_lastsent (uptime s2) (wire_accept b s2)) else s2
   else s1.
 
 (* ---------- srpc_async__call ---------- *)
@@ -304,7 +320,7 @@ Definition restart (s : st) : st := set_halted true (emit O_RESTART [now s] s).
 (* ---------- received calls ---------- *)
 Definition on_register_result (code tmo : Z) (s : st) : st :=
   if code =? RESULTCODE_TRUE then
-    let s1 := set_registered 1 (set_actto tmo s) in
+    let s1 := k_reset (set_registered 1 (set_actto tmo s)) in
     let s2 := match srpc s1 with
               | Some p => set_srpc (Some (mkrpc (sid p) (rr_last p) (oq p) (obuf p) (ibuf p) (hist p) true (refused_at p) (created_at p))) s1
               | None => s1 end in
@@ -315,7 +331,7 @@ Definition on_register_result (code tmo : Z) (s : st) : st :=
 
 (* supla_esp_on_remote_call_received for one delivered frame f = header ++ payload *)
 Definition handler (f : list Z) (s : st) : st :=
-  let s0 := set_lastresp (uptime s) s in
+  let s0 := k_event (Resp (uptime s)) (set_nresp (nresp s + 1) (set_lastresp (uptime s) s)) in
   let call := le32 f OFF_CALL_ID in
   let ds := le32 f OFF_DATA_SIZE in
   let pay := drop OFF_DATA f in
@@ -323,7 +339,7 @@ Definition handler (f : list Z) (s : st) : st :=
     on_register_result (s32 (le32 pay OFF_RESULT_CODE)) (nthz pay OFF_RESULT_TIMEOUT) s0
   else if (call =? SRV_VERSIONERROR) && (ds =? SZ_VERSIONERROR) then stop_with_delay s0
   else if (call =? SRV_SET_ACTIVITY_TIMEOUT_RESULT) && (ds =? SZ_SET_ACTIVITY_TIMEOUT_RESULT) then
-    set_actto (nthz pay OFF_SAT_RESULT_TIMEOUT) s0
+    k_reset (set_actto (nthz pay OFF_SAT_RESULT_TIMEOUT) s0)
   else if (call =? SRV_GET_CHANNEL_STATE) && (ds =? SZ_CHANNEL_STATE_REQUEST) then
     async_call (api_call A_CHSTATE) (zeros (api_size A_CHSTATE)) s0
   else s0.
@@ -384,14 +400,14 @@ Definition recv_cb (b : list Z) (s : st) : st :=
 
 (* ---------- timer callbacks ---------- *)
 Definition timer1_cb (s : st) : st :=
-  if is_registered s && (0 <? actto s) then
-    let t1 := u32 (uptime s - lastsent s) in
-    let t2 := u32 (uptime s - lastresp s) in
-    let tmo := actto s in
-    if u32 (tmo + PING_RECONNECT_PLUS) <=? t2 then devconn_reconnect s
-    else if ((u32 (tmo - PING_WINDOW_MINUS) <=? t1) && (t1 <=? u32 tmo)) || ((u32 (tmo - PING_WINDOW_MINUS) <=? t2) && (t2 <=? u32 tmo))
-    then async_call (api_call A_PING) (zeros (api_size A_PING)) s
-    else s
+  if is_registered s then
+    let slot := match srpc s with Some p => len (oq p) <? QUEUE_SIZE | None => false end in
+    let s1 := if 0 <? actto s then k_event (Tick (uptime s) slot) s else s in
+    match t1_decide (uptime s) (lastsent s) (lastresp s) (actto s) with
+    | T1_reconnect => devconn_reconnect s1
+    | T1_ping => async_call (api_call A_PING) (zeros (api_size A_PING)) s1
+    | T1_none => s1
+    end
   else s.
 Definition watchdog_cb (s : st) : st :=
   if lastresp s <? uptime s then
@@ -515,7 +531,7 @@ Definition init0 (boot_ cyc dead : Z) (pay lat_ : list Z) (cs cc : bool) : st :=
        0 (STATION_GOT_IP_ + 1)
        L_IDLE 0 dead []
        false 0 None [] [] 0 0 0 0 false 0
-       0 [] false [] false false pay cs cc 0 (-1) [].
+       0 [] false [] false false pay cs cc 0 (-1) [] 0 (kinit 0 0) false 0.
 Definition boot_device (boot_ cyc dead : Z) (pay lat_ : list Z) (cs cc : bool) : st :=
   let s0 := init0 boot_ cyc dead pay lat_ cs cc in
   let s1 := set_wstatus STATION_CONNECTING_ (emit O_WIFISTART [now s0] s0) in         (* supla_esp_wifi_init *)
